@@ -1,7 +1,7 @@
 """Which contract serves which property, and the trusted base per property."""
 import importlib
 
-MODULES = ['contracts.c_nodes_simple', 'contracts.c_nodes_buffered', 'contracts.c_nodes_keyed', 'contracts.c_emit', 'contracts.c_async', 'contracts.c_nodes_combine', 'contracts.c_kafka', 'contracts.c_loop', 'contracts.c_textfile', 'contracts.c_sources', 'contracts.c_topology', 'contracts.c_dask', 'contracts.c_df_reductions', 'contracts.c_df_groupby', 'contracts.c_df_windows', 'contracts.c_df_rolling', 'contracts.c_lemmas', 'contracts.c_orderedset', 'contracts.c_emit_public', 'contracts.c_df_wiring', 'contracts.c_init', 'contracts.c_periodic']
+MODULES = ['contracts.c_nodes_simple', 'contracts.c_nodes_buffered', 'contracts.c_nodes_keyed', 'contracts.c_emit', 'contracts.c_async', 'contracts.c_nodes_combine', 'contracts.c_kafka', 'contracts.c_loop', 'contracts.c_textfile', 'contracts.c_sources', 'contracts.c_topology', 'contracts.c_dask', 'contracts.c_df_reductions', 'contracts.c_df_groupby', 'contracts.c_df_windows', 'contracts.c_df_rolling', 'contracts.c_lemmas', 'contracts.c_orderedset', 'contracts.c_emit_public', 'contracts.c_df_wiring', 'contracts.c_init', 'contracts.c_periodic', 'contracts.c_frames']
 
 CONTRACTS = []      # (module, class name, props)
 for m in MODULES:
